@@ -107,6 +107,7 @@ type World struct {
 	cur      [maxTasks]*reqState // request being served by each task
 	solo     *reqState           // request being served outside the scheduler
 	identify *string
+	wrapped  http.Handler // the router behind Router.WrapHTTPHandlers(pass-through pre-handlers), when the scenario asks for it
 	mwBase   []rux.HandlerFunc
 	inner    *rux.Router // a second router mounted below the main one ("mount" action)
 
@@ -221,6 +222,12 @@ func BuildWorld(sc *Scenario, bo BuildOpt) (w *World) {
 		}
 	}()
 	w.register(sc.Program, nil)
+	if sc.Options.Wrapped {
+		pass := func(h http.Handler) http.Handler {
+			return http.HandlerFunc(func(rw http.ResponseWriter, r *http.Request) { h.ServeHTTP(rw, r) })
+		}
+		w.wrapped = w.R.WrapHTTPHandlers(pass, pass)
+	}
 	if sc.Inner {
 		// the mounted router: two routes served by harness handlers of this world
 		w.inner = rux.New()
@@ -676,6 +683,35 @@ func (w *World) act(rs *reqState, id string, c *rux.Context, a Action) {
 			add("url", u.String())
 			u.RawQuery = "next=" + url.QueryEscape(rec.Path)
 		}
+	case "helper": // the other response helpers: content is C19's business, the header commit is C08's
+		add("helper", a.S)
+		switch a.S {
+		case "json":
+			c.JSON(a.N, map[string]any{"id": id, "n": 1})
+		case "jsonbytes":
+			c.JSONBytes(a.N, []byte(`{"a":1}`))
+		case "jsonp":
+			c.JSONP(a.N, "cb", []int{1, 2})
+		case "xml":
+			c.XML(a.N, struct{ A int }{7})
+		case "html":
+			c.HTML(a.N, []byte("<b>"+id+"</b>"))
+		case "htmlstring":
+			c.HTMLString(a.N, "")
+		case "blob":
+			c.Blob(a.N, "application/x-sim", []byte(id))
+		case "back":
+			c.Back()
+		case "cookie":
+			c.SetCookie("k", id, 60, "", "", false, true)
+			c.DelCookie("old")
+		case "attachment":
+			c.Attachment("/verif/ruxsim/go.mod", "go.mod")
+		case "inline":
+			c.Inline("/nonexistent/file", "x")
+		case "statuscode":
+			c.SetStatusCode(a.N)
+		}
 	case "binary": // Context.Binary -> http.ServeContent
 		add("do", "binary:"+strconv.Itoa(a.N)+":"+a.S)
 		c.Binary(a.N, strings.NewReader(a.S), "f.bin", true)
@@ -687,7 +723,11 @@ func (w *World) act(rs *reqState, id string, c *rux.Context, a Action) {
 		r := c.Router()
 		n := len(r.String()) * 0
 		n += len(r.Routes()) + len(r.NamedRoutes()) + len(r.Handlers())
-		r.IterateRoutes(func(*rux.Route) { n++ })
+		r.IterateRoutes(func(rt *rux.Route) {
+			n += len(rt.Info().Methods) + len(rt.String())*0 + len(rt.MethodString(","))*0 + len(rt.Handlers())*0 + len(rt.Name())*0 + len(rt.HandlerName())*0
+			n++
+		})
+		n += len(c.HandlerName()) * 0
 		_ = r.GetRoute("route0")
 		add("introspect", strconv.Itoa(n))
 	case "copy": // keep a Copy() of the context beyond the request, as a handler does for a background goroutine
@@ -774,6 +814,10 @@ func (w *World) observe(rs *reqState, c *rux.Context) string {
 	if c.Req != nil {
 		// what the request-derived getters say (a value kept from another request would show here)
 		fmt.Fprintf(&b, " acc=%v q=%s ct=%s ip=%s ck=%s post=%s", c.AcceptedTypes(), c.Query("q"), c.ContentType(), c.ClientIP(), c.Cookie("sid"), c.Post("user"))
+		qp, qok := c.QueryParam("q")
+		dl, dok := c.Deadline()
+		fmt.Fprintf(&b, " more=%v|%s|%v%t|%d|%t%t%t%t%t|%v|%v|%v|%v%t|%v", c.FirstError(), c.URL().Path, qp, qok, len(c.QueryValues()),
+			c.IsAjax(), c.IsGet(), c.IsPost(), c.IsTLS(), c.IsWebSocket(), c.SafeGet("k"), c.Value("k"), c.ReqCtxValue(swapKey{}), dl.IsZero(), dok, c.Err())
 	}
 	return b.String()
 }
@@ -864,7 +908,11 @@ func (w *World) Serve(task, idx int, rq *Req) *ReqRec {
 				rec.Escaped = panicString(r)
 			}
 		}()
-		w.R.ServeHTTP(rs.sw, rs.orig)
+		if w.wrapped != nil {
+			w.wrapped.ServeHTTP(rs.sw, rs.orig)
+		} else {
+			w.R.ServeHTTP(rs.sw, rs.orig)
+		}
 		rec.Returned = true
 	}()
 	rec.EndSeq = shNextSeq()
